@@ -109,7 +109,7 @@ Section Service.
       destruct (specs_ok spec_ok (mem s) (recipients (route services msg) (mem s))); [| exact H].
       destruct (changes (walks wk (mem s) (recipients (route services msg) (mem s)) msg))
         as [| c ch] eqn:Ec; [exact H|].
-      destruct (up s); [| exact H]. cbn [fst mem sto]. rewrite <- H, <- Ec.
+      destruct (up s && all_serialisable (c :: ch)); [| exact H]. cbn [fst mem sto]. rewrite <- H, <- Ec.
       apply set_write_agree.
       + intros c0 Hc0. eapply changes_present. eassumption.
       + intros k. reflexivity.
@@ -125,9 +125,10 @@ Section Service.
     - unfold do_rem. destruct (up s); [| exact H]. cbn. apply msorted_mdel. exact H.
     - unfold do_process, do_process_to.
       destruct (specs_ok spec_ok (mem s) (recipients (route services msg) (mem s))); [| exact H].
-      destruct (changes (walks wk (mem s) (recipients (route services msg) (mem s)) msg));
+      destruct (changes (walks wk (mem s) (recipients (route services msg) (mem s)) msg)) as [| c ch];
         [exact H|].
-      destruct (up s); [| exact H]. cbn [fst mem]. apply set_states_sorted. exact H.
+      destruct (up s && all_serialisable (c :: ch)); [| exact H]. cbn [fst mem].
+      apply set_states_sorted. exact H.
     - exact H.
     - exact H.
   Qed.
@@ -145,9 +146,10 @@ Section Service.
     - unfold do_process, do_process_to.
       destruct (specs_ok spec_ok (mem s) (recipients (route services msg) (mem s)));
         [| split; reflexivity].
-      destruct (changes (walks wk (mem s) (recipients (route services msg) (mem s)) msg));
+      destruct (changes (walks wk (mem s) (recipients (route services msg) (mem s)) msg)) as [| c ch];
         [split; reflexivity|].
-      destruct (up s); cbn; [discriminate | split; reflexivity].
+      destruct (up s && all_serialisable (c :: ch)); cbn [fst snd must_not_change];
+        [discriminate | split; reflexivity].
     - split; reflexivity.
     - split; reflexivity.
   Qed.
@@ -163,9 +165,9 @@ Section Service.
     - unfold do_process, do_process_to.
       destruct (specs_ok spec_ok (mem s) (recipients (route services msg) (mem s)));
         [| split; reflexivity].
-      destruct (changes (walks wk (mem s) (recipients (route services msg) (mem s)) msg));
+      destruct (changes (walks wk (mem s) (recipients (route services msg) (mem s)) msg)) as [| c ch];
         [split; reflexivity|].
-      rewrite Hup. split; reflexivity.
+      rewrite Hup. cbn [andb]. split; reflexivity.
     - split; reflexivity.
     - split; reflexivity.
   Qed.
@@ -182,6 +184,40 @@ Section Service.
     - destruct (must_not_change (snd (step q s))) eqn:E; [|reflexivity].
       destruct (failed_is_noop q s E) as [H _]. contradiction.
     - intros Hi. symmetry. apply (step_inv q s Hi).
+  Qed.
+
+  (** ---- C16_batch_all_or_nothing --------------------------------------------------- *)
+
+  (** one end state that cannot be serialised fails the write of the whole
+      batch, whatever its size and although the store may be up: nothing is
+      stored, memory is untouched, Process reports the walks and the error *)
+  Lemma batch_unserialisable_is_noop : forall mids msg s,
+      specs_ok spec_ok (mem s) mids = true ->
+      all_serialisable (changes (walks wk (mem s) mids msg)) = false ->
+      do_process_to spec_ok wk mids msg s = (s, PProcessed true (walks wk (mem s) mids msg)).
+  Proof.
+    intros mids msg s Hok Hser. unfold do_process_to. rewrite Hok.
+    destruct (changes (walks wk (mem s) mids msg)) as [| c ch]; [discriminate Hser|].
+    rewrite Hser, andb_false_r. reflexivity.
+  Qed.
+
+  (** conversely a Process call that reports no error and moved some machine
+      found the store up and could serialise every end state, and memory and
+      store took the whole batch *)
+  Lemma batch_written_whole : forall mids msg s s' ws,
+      do_process_to spec_ok wk mids msg s = (s', PProcessed false ws) ->
+      changes ws <> [] ->
+      up s = true /\ all_serialisable (changes ws) = true
+      /\ mem s' = set_states (changes ws) (mem s)
+      /\ sto s' = write_states (mem s) (changes ws) (sto s).
+  Proof.
+    intros mids msg s s' ws H Hne. unfold do_process_to in H.
+    destruct (specs_ok spec_ok (mem s) mids); [| discriminate H].
+    destruct (changes (walks wk (mem s) mids msg)) as [| c ch] eqn:Ec.
+    - inversion H; subst. rewrite Ec in Hne. contradiction.
+    - destruct (up s) eqn:Eu; destruct (all_serialisable (c :: ch)) eqn:Es; cbn [andb] in H;
+        try discriminate H.
+      inversion H; subst. rewrite Ec. repeat split; try reflexivity. exact Es.
   Qed.
 
   (** ---- the responses are those the specification automaton accepts ----------------- *)
@@ -218,8 +254,9 @@ Section Service.
       destruct (changes ws) as [| c ch] eqn:Ec.
       + cbn [snd fst hist_step h_cur h_up]. rewrite Hfrom, Hnd, Ec. cbn [andb is_nil negb].
         rewrite orb_true_r. reflexivity.
-      + destruct (up s) eqn:Eu; cbn [snd fst hist_step h_cur h_up mem up];
-          rewrite Hfrom, Hnd, Ec, ?Eu; cbn [andb is_nil negb orb]; rewrite ?Eu; reflexivity.
+      + destruct (up s) eqn:Eu; destruct (all_serialisable (c :: ch)) eqn:Es;
+          cbn [andb snd fst hist_step h_cur h_up mem up];
+          rewrite Hfrom, Hnd, Ec, ?Eu, ?Es; cbn [andb is_nil negb orb]; rewrite ?Eu; reflexivity.
     - cbn [snd fst hist_step h_cur h_up]. rewrite mmap_eqb_refl. reflexivity.
     - reflexivity.
   Qed.
